@@ -9,6 +9,7 @@ import itertools
 
 MAXR = 4
 STYLES = [0, 1, 2, 3, 4]      # p c n a b
+EXE_STYLES = [0, 1, 2, 3, 4, 5, 6]   # + u v: coap_register_async(.., 0) and a later coap_async_trigger()
 STYLE_NAMES = {0: "piggybacked", 1: "separate CON from handler", 2: "separate NON from handler",
                3: "async CON", 4: "async NON"}
 
@@ -121,10 +122,15 @@ def random_exc(r, honest=True, maxr=MAXR):
 
 
 # ------------------------------------------------------------------ exe: whole exchanges
-def exe_line(kind, reqs, fates, seed=12345, cmid0=100, smid0=-1, adelay=300, dflt=3, nstart=0, method=1):
+# initial tx_token values: the first token is tok0 + 1.  -1: zero-length token first, then 1 byte;
+# 254: 1 byte then 2 bytes; 2^56 - 2: 7 bytes then 8 bytes
+TOK0S = [0, -1, 254, 72057594037927934]
+
+
+def exe_line(kind, reqs, fates, seed=12345, cmid0=100, smid0=-1, adelay=300, dflt=3, nstart=0, method=1, tok0=0):
     q = " ".join("%d:%d:%d" % (s, ok, th) for (s, ok, th) in reqs)
-    return "exe K %s P %d M %d %d A %d E %d N %d H %d Q %s F %s" % (
-        kind, seed, cmid0, smid0, adelay, dflt, nstart, method, q, " ".join(fates))
+    return "exe K %s P %d M %d %d T %d A %d E %d N %d H %d Q %s F %s" % (
+        kind, seed, cmid0, smid0, tok0, adelay, dflt, nstart, method, q, " ".join(fates))
 
 
 def exhaustive_fates(n, dup_delay):
@@ -271,3 +277,41 @@ def double_conclusions(steps):
                     out.append(pos)
                 done.add(tok)
     return out
+
+
+def server_shape_errors(srv_steps):
+    """The steps observed at the real server ('X:<datagram> > <sent>' / 'TS > <sent>').  What a
+    libcoap server with the harness's handlers may send in direct answer to a request datagram
+    is fixed by the style: 0: the piggybacked response; 1: the separate CON response + the empty
+    ACK (only the ACK when NSTART holds the response back); 2: the NON response + the empty ACK;
+    3/4 (coap_register_async, timed or untimed): nothing but the empty ACK - the response comes
+    from the timer / trigger, never from a request datagram, in particular not from a
+    retransmission that arrives while the async entry is pending."""
+    errs = []
+    if not srv_steps:
+        return errs
+    for st in srv_steps.split(" | "):
+        inp, _, outs = st.partition(" > ")
+        outs = [] if outs.strip() == "-" else outs.strip().split(",")
+        kinds = [o.split(":")[0] for o in outs]
+        if inp.startswith("X:req:"):
+            _, _, m, k, sty = inp.split(":")
+            ok = {"0": kinds == ["ackr"], "1": kinds in (["conr", "ack"], ["ack"]),
+                  "2": kinds == ["nonr", "ack"]}.get(sty, kinds == ["ack"])
+            for o in outs:
+                f = o.split(":")
+                if f[0] == "ack" and f[1] != m:
+                    ok = False
+                if f[0] in ("ackr", "conr", "nonr") and f[2] != k:
+                    ok = False
+                if f[0] == "ackr" and f[1] != m:
+                    ok = False
+            if not ok:
+                errs.append(st)
+        elif inp.startswith("X:"):
+            # an ACK / RST of the client may release a CON response that NSTART held back
+            if any(x != "conr" for x in kinds):
+                errs.append(st)
+        elif any(x not in ("conr", "nonr") for x in kinds):
+            errs.append(st)
+    return errs
